@@ -10,6 +10,10 @@
      browse.Browse.ServeHTTP            -> browse (scope, redirect, listing, archive walk)
      httpserver.hideCasketfile          -> hide_casketfile
 
+   A site with a path prefix (address host/pre): [q_path] is the path the handlers see, i.e. after
+   httpserver.trimPathPrefix (the harness computes it as the server does: TrimPrefix on the escaped
+   path, then url.ParseRequestURI); the static file server puts the prefix back in its redirects.
+
    Definitions only; proofs are in C02_Proofs.v, the property theorems in C02_Props.v. *)
 Require Import V.Lib V.GoPath V.Gen_C02 V.Gen_C02b.
 Open Scope N_scope.
@@ -118,17 +122,19 @@ Fixpoint first_index (fs : fsys) (req : bytes) (pages : list bytes) : option (by
               end
   end.
 
-(* the precompressed-sibling loop over staticEncodingPriority *)
-Fixpoint first_sibling (fs : fsys) (req ae : bytes) (encs : list (bytes * bytes)) : option (node * bytes) :=
+(* the precompressed-sibling loop over staticEncodingPriority: a directory of that name and a
+   sibling that is on the hide list are passed over *)
+Fixpoint first_sibling (fs : fsys) (hide : list bytes) (req ae : bytes) (encs : list (bytes * bytes))
+  : option (node * bytes) :=
   match encs with
   | [] => None
   | (name, ext) :: r =>
       if accepts ae name then
         match fs_open fs (req ++ ext) with
-        | Some n => Some (n, name)
-        | None => first_sibling fs req ae r
+        | Some n => if n_dir n || is_hidden fs hide n then first_sibling fs hide req ae r else Some (n, name)
+        | None => first_sibling fs hide req ae r
         end
-      else first_sibling fs req ae r
+      else first_sibling fs hide req ae r
   end.
 
 (* staticfiles.FileServer.ServeHTTP / serveFile; [prefix] is the site's path prefix ("/" if none),
@@ -153,7 +159,7 @@ Definition serve_file (fs : fsys) (hide pages : list bytes) (prefix : bytes)
                                          end
                          else (req, d) in
       if n_dir d1 || is_hidden fs hide d1 then Status 404
-      else match first_sibling fs req1 ae gen_static_encodings with
+      else match first_sibling fs hide req1 ae gen_static_encodings with
            | Some (n, enc) => Serve n (Some enc)
            | None => Serve d1 None
            end
@@ -174,9 +180,20 @@ Definition is_child (d p : bytes) : bool := is_desc d p && negb (existsb (N.eqb 
 Definition children (fs : fsys) (d : bytes) : list node := filter (fun n => is_child d (n_path n)) fs.
 Definition descendants (fs : fsys) (d : bytes) : list node := filter (fun n => is_desc d (n_path n)) fs.
 
-Definition browse (fs : fsys) (hide pages : list bytes) (confs : list bconf)
+(* the archive walker (fs.Walk below the directory, the directory itself left out): an entry that
+   is hidden is passed over, and a hidden directory is not descended into (filepath.SkipDir) —
+   a descendant is archived iff neither it nor a directory between [d] and it is hidden *)
+Definition cut_by (fs : fsys) (hide : list bytes) (d : bytes) (k : node) (a : node) : bool :=
+  is_hidden fs hide a && is_desc d (n_path a) &&
+  (beq (n_path a) (n_path k) || (n_dir a && is_desc (n_path a) (n_path k))).
+Definition archived (fs : fsys) (hide : list bytes) (d : bytes) (k : node) : bool :=
+  negb (existsb (cut_by fs hide d k) fs).
+Definition archive_members (fs : fsys) (hide : list bytes) (d : bytes) : list node :=
+  filter (archived fs hide d) (descendants fs d).
+
+Definition browse (fs : fsys) (hide pages : list bytes) (prefix : bytes) (confs : list bconf)
            (meth : N) (req ae archive : bytes) : outcome :=
-  let next := serve_file fs hide pages [SLASH] meth req ae in
+  let next := serve_file fs hide pages prefix meth req ae in
   match find (fun bc => path_matches false req (b_scope bc)) confs with
   | None => next
   | Some bc =>
@@ -187,9 +204,9 @@ Definition browse (fs : fsys) (hide pages : list bytes) (confs : list bconf)
       else if (meth =? 2) || (meth =? 3) then Status 501
       else if negb (is_get_head meth) then next
       else
-        let u := match req with [] => [SLASH] | _ => req end in
+        let u := match req with [] => [SLASH] | _ => req end in   (* r.URL.Path: the site's path prefix is not put back *)
         if negb (ends_with_slash u)
-        then Redirect 301 (http_redirect req (escape_path (u ++ [SLASH])))
+        then Redirect 301 (http_redirect req (escape_path (trim_dslash u ++ [SLASH])))
         else
           let dirp := jail req in
           let kids := children fs dirp in
@@ -197,7 +214,7 @@ Definition browse (fs : fsys) (hide pages : list bytes) (confs : list bconf)
           else match archive with
                | [] => Listing (filter (fun k => negb (is_hidden fs hide k)) kids)
                | _ => if existsb (beq archive) (b_types bc)
-                      then Archive (descendants fs dirp)   (* fs.Walk: the hide list is not consulted *)
+                      then Archive (archive_members fs hide dirp)
                       else Status 404
                end
     end
@@ -211,13 +228,13 @@ Definition hide_casketfile (abs_root abs_origin : bytes) : option bytes :=
   end.
 
 (* ---- a site: internal in front of browse in front of the static file server ---- *)
-Record site := { s_fs : fsys; s_hide : list bytes; s_pages : list bytes;
+Record site := { s_fs : fsys; s_hide : list bytes; s_pages : list bytes; s_prefix : bytes;
                  s_internal : list bytes; s_browse : list bconf }.
 Record request := mkreq { q_meth : N; q_path : bytes; q_ae : bytes; q_archive : bytes }.
 
 Definition handle (s : site) (r : request) : outcome :=
   if internal_blocks (s_internal s) (q_path r) then Status 404
-  else browse (s_fs s) (s_hide s) (s_pages s) (s_browse s) (q_meth r) (q_path r) (q_ae r) (q_archive r).
+  else browse (s_fs s) (s_hide s) (s_pages s) (s_prefix s) (s_browse s) (q_meth r) (q_path r) (q_ae r) (q_archive r).
 
 (* ---- the fixture the harness writes to disk (Gen_C02b is regenerated from the same table) ---- *)
 Definition fixture_fs : fsys :=
@@ -226,10 +243,10 @@ Definition fixture_fs : fsys :=
    paths the instance was started with), then the paths of the `internal` directives *)
 Definition site_hide (abs_root abs_origin : bytes) : list bytes :=
   match hide_casketfile abs_root abs_origin with Some h => [h] | None => [] end ++ gen_c02_internal.
-(* scope = "" : no browse directive *)
-Definition mksite (abs_root abs_origin scope : bytes) (types : list bytes) : site :=
+(* prefix = the path of the site's address ("/" if none); scope = "" : no browse directive *)
+Definition mksite (abs_root abs_origin prefix scope : bytes) (types : list bytes) : site :=
   {| s_fs := fixture_fs; s_hide := site_hide abs_root abs_origin; s_pages := gen_default_index_pages;
-     s_internal := gen_c02_internal;
+     s_prefix := prefix; s_internal := gen_c02_internal;
      s_browse := match scope with [] => [] | _ => [{| b_scope := scope; b_types := types |}] end |}.
 
 (* ---- observations ---- *)
@@ -242,9 +259,9 @@ Record obs := mkobs { o_status : N; o_loc : bytes; o_ce : bytes; o_kind : N;
 Inductive case :=
 | CSkip                                   (* net/http rejected the request line; nothing to judge *)
 | CReq (s : site) (r : request) (o : obs)
-(* a site with a path prefix: the server's prefix trimming (url.Parse of the escaped rest) is not
-   modelled; [r] carries the path the handlers saw as computed by the harness, and only the
-   executable property is judged *)
+(* a request that did not reach the site's handlers (a site with a path prefix that the request
+   path does not start with: the server answers "no such site"): only the executable property
+   is judged *)
 | CContract (s : site) (r : request) (o : obs).
 
 Definition mem_N (l : list N) (x : N) : bool := existsb (N.eqb x) l.
@@ -300,12 +317,6 @@ Definition served_from (pages : list bytes) (req ae : bytes) (enc : option bytes
     | Some e => exists ext, In (e, ext) gen_static_encodings /\ accepts ae e = true /\ p = jail (base ++ ext)
     end.
 
-(* hypothesis of the partial never-hidden theorem: no hidden file is reachable under a name
-   q ++ ext, ext the extension of a static encoding *)
-Definition no_hidden_sibling (fs : fsys) (hide : list bytes) : Prop :=
-  forall q e ext m, In (e, ext) gen_static_encodings -> fs_open fs (q ++ ext) = Some m ->
-                    is_hidden fs hide m = false.
-
 (* the files a plain answer to [req] may consist of: the file the cleaned path names, an index
    page of that directory, or a precompressed sibling of one of these that the client accepts *)
 Definition child_path (d name : bytes) : bytes := dir_prefix d ++ name.
@@ -324,13 +335,17 @@ Definition spec_ok (s : site) (r : request) (o : obs) : bool :=
                       where_ (n_path n)) fs in
   let visible (p : bytes) :=
     match fs_at fs p with Some n => negb (hidden_id fs (s_hide s) (n_id n)) | None => false end in
+  (* p lies below a hidden directory that is itself below the archived directory *)
+  let below_hidden (p : bytes) :=
+    existsb (fun a => n_dir a && hidden_id fs (s_hide s) (n_id a) && is_desc c (n_path a) && is_desc (n_path a) p) fs in
   same_origin (o_loc o) &&
   match o_kind o with
   | 0 => forallb (ok_file (allowed_static (s_pages s) (q_path r) (q_ae r))) (o_ids o) &&
          (* a 200 answer to GET is exactly one file *)
          (if (o_status o =? 200) && (q_meth r =? 0) then N.of_nat (length (o_ids o)) =? 1 else true)
   | 1 => seteq_N (o_ids o) [] && forallb (fun nm => visible (child_path c nm)) (o_names o)
-  | _ => forallb (ok_file (is_desc c)) (o_ids o) && forallb (fun nm => visible (child_path c nm)) (o_names o)
+  | _ => forallb (ok_file (fun p => is_desc c p && negb (below_hidden p))) (o_ids o) &&
+         forallb (fun nm => visible (child_path c nm) && negb (below_hidden (child_path c nm))) (o_names o)
   end.
 
 Definition judge (c : case) : N :=
